@@ -257,6 +257,49 @@ def run(R, tier):
                     exp.append(("item", "el%d" % i))
                 cases.append(("n=%d" % n, lst, exp))
         table("R09.7", who.split("<")[0].split("::")[-1], bs[0], cases, "every element once, in order, joined by ',' (none leading or trailing); empty list refused")
+    # R09.10 every other writer of the workspace: unit quantities, Auto, SYSTem:VERSion - and a census that no
+    # ResponseData impl is left without a rule
+    covered = set()
+    for unit_ in P.units:
+        for wb in unit_.bodies:
+            if wb.name != "format_response_data" or RD not in (wb.impl_trait or ""):
+                continue
+            ty = wb.impl_self or ""
+            if ty in DIGITS or ty in ("f32", "f64", "bool", "T", "&'a str", "&'a [u8]") or ty.endswith(("format::Arbitrary<'a>", "format::Character<'a>", "format::Expression<'a>", "error::Error")) or ty in ("alloc::vec::Vec<T>", "arrayvec::ArrayVec<T, N>") or any(ty.endswith("format::%s<%s>" % (w_, i_)) for w_ in WRAP for i_ in DIGITS):
+                covered.add(ty)
+                continue
+            if ty.startswith("uom::si::Quantity<"):
+                em = E.emit(em_eng, wb, AggV("uom::si::Quantity", {0: fdai.UNIT, 1: fdai.UNIT, 2: SymV("val", "val")}))
+                why = E.check_emission(em, [("item", "val")])
+                R.check(not why, "R09.10", "Quantity@%s" % wb.span.rsplit(":", 1)[-1], "a unit quantity is written as its numeric value (in the unit it is stored in), nothing else", "unit quantity writer: %s" % why, where=wb.span)
+                covered.add(ty)
+                continue
+            if ty.endswith("util::Auto"):
+                adt = next((p_ for p_ in unit_.adts if p_.endswith("util::Auto")), None)
+                tab = {v["name"]: int(v["discr"]) for v in unit_.adts[adt]["variants"]} if adt else {}
+                eng_a = fdai.Engine(P, unit_, inline=E.make_inline(P), models=em_eng.models, loop_limit=32, max_paths=64, max_depth=12)
+                bad = []
+                for val, exp in ((EnumV(adt, "Once", tab.get("Once", 0), {}), [b"ONCE"]), (EnumV(adt, "Bool", tab.get("Bool", 1), {0: K(True)}), [b"1"]), (EnumV(adt, "Bool", tab.get("Bool", 1), {0: K(False)}), [b"0"])):
+                    why = E.check_emission(E.emit(eng_a, wb, val), exp)
+                    if why:
+                        bad.append("%r: %s" % (val, why))
+                R.check(not bad, "R09.10", "Auto", "ONCE / 1 / 0", "; ".join(bad[:3]), where=wb.span)
+                covered.add(ty)
+                continue
+            if ty.endswith("SystVersionCommand"):
+                adt = next((p_ for p_ in unit_.adts if p_.endswith("system::SystVersionCommand")), None)
+                fields = [f["name"] for f in unit_.adts[adt]["variants"][0]["fields"]] if adt else []
+                eng_v = fdai.Engine(P, unit_, inline=E.make_inline(P), models=em_eng.models, loop_limit=32, max_paths=64, max_depth=12)
+                bad = []
+                for year, rev in ((1999, 0), (1999, 9), (1999, 10), (2024, 42), (1999, 255), (0, 0)):
+                    val = RefV(Cell(AggV(adt, {i: K(year if n_ == "year" else rev) for i, n_ in enumerate(fields)}), "cmd"))
+                    why = E.check_emission(E.emit(eng_v, wb, val), [("num", year), b".", ("num", rev)])
+                    if why:
+                        bad.append("%d.%d: %s" % (year, rev, why))
+                R.check(not bad and sorted(fields) == ["rev", "year"], "R09.10", "SYSTem:VERSion", "year '.' revision, both written as numbers", "; ".join(bad[:3]) or "fields %s" % fields, where=wb.span)
+                covered.add(ty)
+                continue
+            R.violation("R09.10", "uncovered:%s" % ty[:80], "ResponseData impl for %s has no rule: its output is not checked" % ty, where=wb.span)
     R.count("emission_evaluations", n_em)
 
     # ---- R09.8 writer/reader agreement ------------------------------------------------------------------------------------------------
@@ -315,11 +358,11 @@ def _flat(t):
     return out
 
 
-def check_error_writer(R, P, u, eng, E):
+def check_error_writer(R, P, u, eng, E, rule="R09.6"):
     """code ',' '"' message [';' extended] '"' with every embedded quote doubled; non-ASCII text refused"""
     bs = [b for b in u.bodies if b.name == "format_response_data" and RD in (b.impl_trait or "") and (b.impl_self or "").endswith("error::Error")]
     if len(bs) != 1:
-        R.anchor_lost("R09.6", "ResponseData for Error")
+        R.anchor_lost(rule, "ResponseData for Error")
         return
     b = bs[0]
     EC = "scpi::error::ErrorCode"
@@ -330,7 +373,7 @@ def check_error_writer(R, P, u, eng, E):
     oracle = {e["variant"]: e for e in json.load(open(os.path.join(VERIF, "oracle", "errors.json")))["errors"]} if os.path.exists(os.path.join(VERIF, "oracle", "errors.json")) else {}
     picks = [n for n in ("NoError", "CommandError", "UndefinedHeader", "QueueOverflow", "DeviceSpecificError", "QueryInterrupted", "OutOfMemory") if n in by_name]
     if len(picks) < 5:
-        R.anchor_lost("R09.6", "ErrorCode variants (have %s)" % sorted(by_name)[:6])
+        R.anchor_lost(rule, "ErrorCode variants (have %s)" % sorted(by_name)[:6])
         return
     bad = []
     n = 0
@@ -382,7 +425,7 @@ def check_error_writer(R, P, u, eng, E):
                 why = "undecided (%s)" % type(e).__name__
             if why:
                 bad.append("Custom(%r) ext=%r: %s" % (msg, ext, why))
-    R.check(not bad and (n >= 20 or bad), "R09.6", "Error", "code ',' '\"' message [';' extended] '\"' with embedded quotes doubled; non-ASCII text refused (%d values)" % n, "; ".join(bad[:4]), where=b.span)
+    R.check(not bad and (n >= 20 or bad), rule, "Error", "code ',' '\"' message [';' extended] '\"' with embedded quotes doubled; non-ASCII text refused (%d values)" % n, "; ".join(bad[:4]), where=b.span)
 
 
 def sym_short(s):
